@@ -102,6 +102,10 @@ Delivered(exp, seen) == \A i \in 1 .. Len(exp) : exp[i][4] # 0 => (i <= Len(seen
 SeesStatus(e) == e[10] # <<>>
 StatusSeen(e) == <<e[1], e[2], e[10]>>
 
+RECURSIVE Collapse(_, _)
+Collapse(seq, i) == IF i > Len(seq) THEN <<>>
+                    ELSE IF i > 1 /\ seq[i] = seq[i - 1] THEN Collapse(seq, i + 1) ELSE <<seq[i]>> \o Collapse(seq, i + 1)
+
 \* what a callback saw is compared only where the same callbacks ran (who ran is a projection of its own)
 CheckEvents(n, ev, obsEv) ==
     LET sameGuards == Map(SelectSeq(ev, IsGuard), Who) = Map(SelectSeq(obsEv, IsGuard), Who)
@@ -110,7 +114,10 @@ CheckEvents(n, ev, obsEv) ==
     IN
     /\ Diff(n, "ev.traverse",       Map(SelectSeq(ev, IsTraverse), Who),        Map(SelectSeq(obsEv, IsTraverse), Who))
     \* the registry of requested prongs each guard round ran under (what the requests were resolved to)
-    /\ Diff(n, "ev.guard.requested", Map(SelectSeq(ev, IsGuard), GuardUnder),   Map(SelectSeq(obsEv, IsGuard), GuardUnder))
+    \* (where the same guards ran: per guard; else the distinct registries in the order the guards saw them - which
+    \* guards ran is the guard procedure's matter, projection ev.guard)
+    /\ IF sameGuards THEN Diff(n, "ev.guard.requested", Map(SelectSeq(ev, IsGuard), GuardUnder), Map(SelectSeq(obsEv, IsGuard), GuardUnder))
+       ELSE Diff(n, "ev.guard.requested", Collapse(Map(SelectSeq(ev, IsGuard), LAMBDA e : e[11]), 1), Collapse(Map(SelectSeq(obsEv, IsGuard), LAMBDA e : e[11]), 1))
     /\ Diff(n, "ev.guard",          Map(SelectSeq(ev, IsGuard), Who),           Map(SelectSeq(obsEv, IsGuard), Who))
     /\ sameGuards => Diff(n, "ev.guard.pending",  Map(SelectSeq(ev, IsGuard), GuardSees),     Map(SelectSeq(obsEv, IsGuard), GuardSees))
     /\ sameGuards => Diff(n, "ev.guard.payload",  Map(SelectSeq(ev, IsGuard), GuardPays),     Map(SelectSeq(obsEv, IsGuard), GuardPays))
